@@ -169,6 +169,53 @@ pub fn gen_history<S: Sut>(seed: u64, cfg: Cfg, sweep: Option<Sweep>) -> Outcome
                 go!(Act::Merge { r: rng.below(n), s: rng.below(n) });
             }
         }
+        if cfg.nsteps > 0 {
+            // local tail: one replica receives the whole conflict and then keeps editing around the same hot
+            // positions on its own (depth: many edits at one spot, on top of concurrent siblings)
+            let r = rng.below(n);
+            for i in 0..w.ops.len() {
+                if w.know[r] >> i & 1 == 0 {
+                    go!(Act::Deliver { r, author: w.author[i], seq: w.seqs[i] });
+                }
+            }
+            // editing episodes: either one burst (a run of inserts at neighbouring positions, or a run of deletes
+            // at one position), or "type forward, delete back, retype": a run typed at p, then the text just
+            // before/inside it deleted, then an insert where the deleted text was
+            let mut left = cfg.nsteps as isize;
+            let ed = |role: usize, w: &mut World<S>, script: &mut Vec<Act>, rng: &mut Rng| -> Result<(), Viol> {
+                if let Some(cmd) = S::template_cmd(role as u8, rng) {
+                    push_step(w, script, Act::Gen { r, actor: actor_ids[r], cmd, old: rng.below(12) })?;
+                }
+                Ok(())
+            };
+            while left > 0 {
+                let mut roles: Vec<usize> = vec![];
+                if rng.chance(1, 2) {
+                    let ix = rng.below(5);
+                    let del = rng.chance(1, 3);
+                    for k in 0..1 + rng.below(4) {
+                        roles.push(if del { 32 + ix } else { 16 + ix + k });
+                    }
+                } else {
+                    let p = 1 + rng.below(3);
+                    let k = 2 + rng.below(3);
+                    for j in 0..k {
+                        roles.push(16 + p + j);
+                    }
+                    let q = [p - 1, p, 0, 1][rng.below(4)];
+                    for _ in 0..1 + rng.below(k) {
+                        roles.push(32 + q);
+                    }
+                    roles.push(16 + q);
+                }
+                for role in roles {
+                    if let Err(v) = ed(role, &mut w, &mut script, &mut rng) {
+                        return Outcome { script, world: w, viol: Some(v) };
+                    }
+                    left -= 1;
+                }
+            }
+        }
     }
     for stepno in 0..(if cfg.policy == 254 { 0 } else { cfg.nsteps }) {
         let r = rng.below(n);
